@@ -21,7 +21,10 @@ RULE = ("Directories are drawn by Hypothesis (plain, with link files / .cap / ab
         "cache file another request removes, completes or extends the file (every call index x three actions); rewrite race: "
         "with an expired complete cache in place and a same-length rename in the directory, every state of the file "
         "observed while the writer rewrites it is replayed as a reader request; killed writer: the cache-writing request runs "
-        "in a forked child that dies inside the serialisation after 0 / 1 / size/2 / size-1 bytes, then the directory is listed. "
+        "in a forked child that dies inside the serialisation after 0 / 1 / size/2 / size-1 bytes, then the directory is listed; "
+        "cut while decoding: the reader request runs in a forked child whose audit hook truncates the file (to 0 / 1 / size/2 "
+        "bytes) at the decoder's first class look-up, i.e. after the reader has opened the file and before it has consumed it - "
+        "the child must survive and deliver the listing. "
         "Non-trivial: prefix strictly between 0 and size; distinct = (directory hash, file, prefix length).")
 ASSUMPTIONS = [
     "a killed writer, a full disk and a reader racing a writer all leave a prefix of the bytes the writer would have "
@@ -181,6 +184,8 @@ def check_case(case, ctx):
             fails += _rewrite_race(cfg, ref_cfg, root, forms, ctx, d)
         if k == 3:
             fails += _killed_writer(cfg, root, ref, forms, ctx, d)
+        if k == 4:
+            fails += _cut_while_decoding(cfg, root, ref, forms, ctx, d)
         ctx.label("deco:" + d["deco"], "cachefiles:%d" % len(caches))
         if k == 0:
             ctx.sample({"dir": d, "cache_files": caches}, cls=d["deco"])
@@ -338,6 +343,89 @@ def _killed_writer(cfg, root, ref, forms, ctx, d):
                 pass
         if fails:
             break
+    _listing(cfg, "gopher")  # leave a complete cache file behind
+    return fails
+
+
+def _cut_while_decoding(cfg, root, ref, forms, ctx, d):
+    """A reader that is in the middle of decoding the cache file when a writer truncates it (and gets as far as `cut`
+    bytes): the reader request runs in a forked child whose audit hook performs the writer's truncation at the first class
+    look-up of the decoder after the cache file was opened for reading.  The child must live and deliver the directory's
+    listing (a reader that maps the file instead of reading it is killed by SIGBUS at this point)."""
+    import pickle
+    import sys
+    path = os.path.join(root, ".cache.pygopherd.dir")
+    with open(path, "rb") as f:
+        orig = f.read()
+    fails = []
+    for i, cut in enumerate(sorted({0, 1, len(orig) // 2})):
+        with open(path, "wb") as f:
+            f.write(orig)
+        form = forms[i % len(forms)]
+        rd, wr = os.pipe()
+        pid = os.fork()
+        if pid == 0:
+            try:
+                os.close(rd)
+                state = {"armed": False, "fired": False}
+
+                def hook(ev, args):
+                    if state["fired"]:
+                        return
+                    if ev == "open":
+                        try:
+                            name = os.fsdecode(args[0]) if isinstance(args[0], (bytes, str)) else ""
+                        except Exception:
+                            name = ""
+                        if name.endswith("/.cache.pygopherd.dir") and "r" in str(args[1] or "r"):
+                            state["armed"] = True
+                    elif ev == "pickle.find_class" and state["armed"]:
+                        state["fired"] = True
+                        fd = os.open(path, os.O_WRONLY | os.O_TRUNC)
+                        os.write(fd, orig[:cut])
+                        os.close(fd)
+                sys.addaudithook(hook)
+                r = _listing(cfg, form)
+                blob = pickle.dumps((state["fired"], r.response, repr(r.escaped) if r.escaped is not None else None))
+                while blob:
+                    blob = blob[os.write(wr, blob):]
+            finally:
+                os._exit(0)
+        os.close(wr)
+        chunks = []
+        while True:
+            b_ = os.read(rd, 65536)
+            if not b_:
+                break
+            chunks.append(b_)
+        os.close(rd)
+        _, status = os.waitpid(pid, 0)
+        ctx.count("cut_while_decoding_points")
+        ctx.evaluations += 1
+        if os.WIFSIGNALED(status):
+            import signal
+            fails.append(Fail("reader-killed:%s" % signal.Signals(os.WTERMSIG(status)).name,
+                              "the cache file was truncated to %d of %d bytes while a %s request was decoding it: the process "
+                              "handling the request was killed by %s" % (cut, len(orig), form, signal.Signals(os.WTERMSIG(status)).name)))
+            break
+        try:
+            fired, resp, esc = pickle.loads(b"".join(chunks))
+        except Exception:
+            fails.append(Fail("reader-gave-nothing", "the cache file was truncated to %d of %d bytes while a %s request was decoding "
+                                                     "it: the request delivered nothing" % (cut, len(orig), form)))
+            break
+        if fired:
+            ctx.nontriv((d, "cut-while-decoding", cut))
+            ctx.label("cut-while-decoding:reached")
+        if _mask(resp) != ref[(b"/", form)] or esc is not None:
+            fails.append(Fail("cut-while-decoding:%s" % ("escaped" if esc else "wrong-listing"),
+                              "the cache file was truncated to %d of %d bytes while a %s request was decoding it: the reply is not "
+                              "the directory's listing: %r %r" % (cut, len(orig), form, resp[:120], esc)))
+            break
+    try:
+        os.unlink(path)
+    except OSError:
+        pass
     _listing(cfg, "gopher")  # leave a complete cache file behind
     return fails
 
